@@ -13,8 +13,8 @@ PB(d, fl) == Lay(d, <<En("gnd", 4), En("gap", 1), En("sig", 2), En("gap", 2), En
 PC(d, fl) == Lay(d, <<En("sig", 2), En("gap", 4), En("sig", 4), En("gap", 2)>>, 0, 0, fl)
 PD(d) == Lay(d, <<En("gap", 2), En("sig", 2), En("gap", 2), En("sig", 2), En("gap", 2), En("sig", 2)>>, 0, 0, FALSE)
 PE(d) == Lay(d, <<En("sig", 2), En("gap", 6)>>, 0, 0, FALSE)          \* pitch 8: does not divide 12
-Via == [sx |-> 2, sy |-> 2]
-Stk(ms) == [px |-> 12, py |-> 12, metals |-> ms, vias |-> [i \in 1..Len(ms) |-> Via]]
+\* via layers are not square and differ from layer to layer (x and y sizes must not be interchangeable)
+Stk(ms) == [px |-> 12, py |-> 24, metals |-> ms, vias |-> [i \in 1..Len(ms) |-> [sx |-> 2 * i, sy |-> (2 * i) + 2]]]
 Stacks == { Stk(<<PA("H", 0)>>), Stk(<<PA("V", 2)>>), Stk(<<PB("H", TRUE)>>), Stk(<<PC("V", TRUE)>>), Stk(<<PE("H")>>),
             Stk(<<PA("H", 0), PA("V", 0)>>), Stk(<<PA("V", 2), PA("H", -2)>>), Stk(<<PB("H", TRUE), PA("V", 0)>>), Stk(<<PD("H"), PC("V", FALSE)>>),
             Stk(<<PC("H", TRUE), PA("V", 0)>>), Stk(<<PA("V", 0), PC("H", TRUE)>>), Stk(<<PC("H", FALSE), PD("V")>>), Stk(<<PB("H", FALSE), PD("V")>>),
